@@ -1,6 +1,7 @@
 package gitindex
 
 import (
+	"sort"
 	"fmt"
 	"os"
 	"path/filepath"
@@ -22,6 +23,15 @@ import (
 // nothing else.
 
 func init() { hx.Register("C13", "C13", runC13) }
+
+func indexOf(xs []string, x string) int {
+	for i, v := range xs {
+		if v == x {
+			return i
+		}
+	}
+	return 0
+}
 
 func runC13(t *testing.T, tp *simrt.Tape, keepTrace bool) hx.Result {
 	base, err := os.MkdirTemp(gDir(), "c13-")
@@ -55,16 +65,21 @@ func runC13(t *testing.T, tp *simrt.Tape, keepTrace bool) hx.Result {
 		var d []string
 		for i := 0; i < n; i++ {
 			p := paths[tp.Gen(len(paths))]
-			switch tp.Gen(10) {
-			case 7:
-				// catch up: the path gets exactly the blob another branch has at the same path
+			switch tp.Gen(11) {
+			case 7, 10:
+				// catch up: a path gets exactly the blob another branch has at the same path
 				// (cherry-pick / merge of one file); the other branch does not change
-				other := allBranches[tp.Gen(len(allBranches))]
-				if other != b {
-					if c, ok := g.tree(other)[p]; ok {
-						ops = append(ops, gFileOp{kind: "write", path: p, content: c})
-						d = append(d, "take "+p+" from "+other)
-					}
+				other := allBranches[(indexOf(allBranches, b)+1+tp.Gen(len(allBranches)-1))%len(allBranches)]
+				ot := g.tree(other)
+				var ps []string
+				for q := range ot {
+					ps = append(ps, q)
+				}
+				sort.Strings(ps)
+				if len(ps) > 0 {
+					q := ps[tp.Gen(len(ps))]
+					ops = append(ops, gFileOp{kind: "write", path: q, content: ot[q]})
+					d = append(d, "take "+q+" from "+other)
 				}
 			case 8:
 				// the whole tree becomes the other branch's tree (a merge that makes them equal)
